@@ -2,6 +2,7 @@ import PyecoreModel.Model.Store
 import PyecoreModel.Model.SetOps
 import PyecoreModel.Model.StoreNav
 import PyecoreModel.Model.Commands
+import PyecoreModel.Model.Compound
 /-! Line protocol for the Store model (C01 C02 C03 C05 C07 C11 C19).  Same records as `harness/store.py::World`. -/
 namespace Store.Proto
 open Store
@@ -12,6 +13,7 @@ structure S where
   abstr   : Array Bool := #[]
   st      : St := {}
   cs      : CStack := {}
+  ks      : KStack := {}
 
 def init : S := {}
 
@@ -179,6 +181,31 @@ def step (p : S) (line : String) : S × String :=
         | _ => "err TypeError"
       (p, out ++ " | " ++ dump p)
     | _, _, _ => (p, "bad-op")
+  | "kcmd" :: rest =>
+    -- `kcmd exec <spec> ;; <spec> ;; …` (a Compound of the specs, possibly none), `kcmd undo`, `kcmd redo`
+    let optInt (t : String) : Option (Option Int) := if t == "-" then some none else t.toInt?.map some
+    let optVal (t : String) : Option (Option PyVal) := if t == "-" then some none else (parseVal t).map some
+    let spec (ws : List String) : Option Spec := match ws with
+      | ["Set", x, f, v] => do pure (.set (← x.toNat?) (← f.toNat?) (← parseVal v))
+      | ["Add", x, f, v, i] => do pure (.add (← x.toNat?) (← f.toNat?) (← parseVal v) (← optInt i))
+      | ["Remove", x, f, v, i] => do pure (.remove (← x.toNat?) (← f.toNat?) (← optVal v) (← optInt i))
+      | ["Move", x, f, a, b, v] => do pure (.move (← x.toNat?) (← f.toNat?) (← optInt a) (← b.toInt?) (← optVal v))
+      | _ => none
+    let rec groups (ws : List String) (cur : List String) (acc : List (List String)) : List (List String) :=
+      match ws with
+      | [] => (if cur.isEmpty then acc else cur.reverse :: acc).reverse
+      | w :: t => if w == ";;" then groups t [] (cur.reverse :: acc) else groups t (w :: cur) acc
+    let letter : Option KLetter := match rest with
+      | ["undo"] => some .undo
+      | ["redo"] => some .redo
+      | "exec" :: ws => ((groups ws [] []).mapM spec).map .exec
+      | _ => none
+    match letter with
+    | none => (p, "bad-op")
+    | some l =>
+      let (ks', st', out) := kstep p.mm p.ks p.st l
+      let p' := { p with ks := ks', st := st' }
+      (p', out ++ s!" n={ks'.n} len={ks'.stack.length} | " ++ dump p')
   | "cmd" :: rest =>
     let optInt (t : String) : Option (Option Int) := if t == "-" then some none else t.toInt?.map some
     let optVal (t : String) : Option (Option PyVal) := if t == "-" then some none else (parseVal t).map some
